@@ -373,10 +373,17 @@ pub fn c02(case_seed: u64, acc: &mut Acc) {
     let mut case = gen::generate(&mut r, &cfg);
     maybe_fault(&mut case, &mut r, 350);
     let held_before = acc.held;
+    // one case in eight enters through the deprecated alias `run_iter`: the protocol is that of
+    // `try_iter` whichever entry point built the iterator (after seeded change U-C02-agent18-5)
+    let alias = r.chance(1, 8);
+    crate::realrun::ENTER_THROUGH_RUN_ITER.with(|c| c.set(alias));
+    if alias {
+        acc.tag("entered_through_run_iter");
+    }
     let ran = run_oracles(
         &case,
         case_seed,
-        "gen",
+        if alias { "run_iter" } else { "gen" },
         acc,
         &[o_accepted, o_protocol, o_rows],
         |c, ran| {
@@ -399,6 +406,7 @@ pub fn c02(case_seed: u64, acc: &mut Acc) {
             );
         },
     );
+    crate::realrun::ENTER_THROUGH_RUN_ITER.with(|c| c.set(false));
     // the same program consumed through nth / skip / step_by / count / last
     if let Some(ran) = ran {
         if acc.held > held_before && r.chance(400, 1000) {
@@ -644,6 +652,10 @@ pub fn c04(case_seed: u64, acc: &mut Acc) {
     let cfg = profile_feedback(&mut r);
     let mut case = gen::generate(&mut r, &cfg);
     let mut variant = "gen";
+    if r.chance(50, 1000) && gen::plant_scope_twins(&mut case, &mut r).is_some() {
+        // the same statement text inside a loop whose counter is named like an output and outside it
+        acc.tag("planted_same_text_in_two_scopes");
+    }
     if r.chance(80, 1000) {
         // remove one output the program reads from the device layout
         let reads = crate::scope::analyse(&case.program).output_reads;
